@@ -50,7 +50,20 @@ def job_load(version, timecnt, typecnt, charcnt_max=3, extra=2, big_types=False,
     strmodel.install(ex, mod)
     # a non-empty footer is handed to ParsePosixSpec (C16); here only the "footer rejected" outcome is followed
     PPS = [n for n in mod.decls if "ParsePosixSpec" in n]
-    for n in PPS: ex.contracts[n] = lambda ex, st, a: False
+    def pps_stub(ex, st, a):
+        # the string handed to the footer parser is exactly the file's footer: the bytes between the newline that follows the data
+        # block and the next newline (the source cursor stands just behind that second newline)
+        B = info.get("B"); sp = a[0]
+        if B is not None:
+            n = ex.concretize(st, strmodel._size(ex, st, sp), "footer length"); d = strmodel._data(ex, st, sp); cur = st.user.get("cursor", 0)
+            lo = cur - 1 - n
+            ex.prove(st, lo - 1 >= 0 and cur - 1 < len(B), "the footer handed to ParsePosixSpec lies inside the file")
+            if lo - 1 >= 0 and cur - 1 < len(B):
+                ex.prove(st, and_(eq(B[lo - 1], 10), eq(B[cur - 1], 10), *[ne(B[lo + i], 10) for i in range(n)]), "the footer is delimited by the two newlines behind the data block")
+                ex.prove(st, and_(*[eq(smt.to_u(ex.load(st, Ptr(d.obj, smt.add(d.off, i)), I8), 8), smt.to_u(B[lo + i], 8)) for i in range(n)]) if n else True,
+                         "the string handed to ParsePosixSpec is the file's footer, byte for byte")
+        return False
+    for n in PPS: ex.contracts[n] = pps_stub
     LOAD = build.find_func(mod, r"TimeZoneInfo::Load\(cctz::ZoneInfoSource\*\)$")
     CTOR = build.find_funcs(mod, r"TimeZoneInfo::TimeZoneInfo\(\)")
     info = {}
@@ -383,6 +396,18 @@ def footer_image(footer):
         return h + struct.pack(">q" if v2 else ">l", 646790400) + b"\0" + struct.pack(">lBB", 0, 0, 0) + b"UTC\0"
     return block(False) + block(True) + b"\n" + footer + b"\n"
 
+def footer_accept_panel():
+    """which footers a small valid image is loaded with (exit 0) or rejected with (exit 1): the footer reaches the parser unaltered"""
+    exe = _replay_exe()
+    for footer, want in ((b"UTC0", True), (b"", True), (b"UTC 0", False), (b" UTC0", False), (b"UTC0 ", False), (b"UTC0\t", False), (b"UT", False), (b"UTC0,M3.2.0", False)):
+        img = footer_image(footer)
+        try: p = subprocess.run([exe], input=img, capture_output=True, timeout=20)
+        except subprocess.TimeoutExpired: return "Load does not return on a small image with footer %r" % footer
+        if p.returncode not in (0, 1): return "crash (exit %d) on a small image with footer %r: %s" % (p.returncode, footer, p.stderr.decode("latin1")[-200:])
+        if (p.returncode == 0) != want:
+            return "a small valid image with footer %r is %s, but the footer as written is %s" % (footer, "loaded" if p.returncode == 0 else "rejected", "valid" if want else "not a POSIX TZ string")
+    return None
+
 def valgrind_check(img, t=None, cs=None):
     """the same replay program, built without sanitizers, under valgrind memcheck: uses of uninitialised zone state"""
     V = common.VERIF; R = build.REPO + "/src/"
@@ -494,6 +519,7 @@ def run(tier):
                 img = bytes((big_fixed_byte(i, kw["timecnt"], kw["typecnt"]) if big_fixed_byte(i, kw["timecnt"], kw["typecnt"]) is not None else m.get("b%d" % i, 1)) & 255 for i in range(total))
             w = native_load_check(img, t=m.get("q_t"), cs=m.get("q_cs"))
             if not w and "uninitialised" in fobj["desc"]: w = valgrind_check(img, t=m.get("q_t"))
+            if not w and "footer" in fobj["desc"]: w = footer_accept_panel()
             if w:
                 kind = "hang" if "does not return" in w else ("uninit" if "valgrind" in w else "ub" if "undefined" in w else ("wf" if "inconsistent table" in w else "crash"))
                 rep.violation("%s:%s" % (kind, fobj["desc"][:60]), w + "  [%s: %s]" % (r["name"], fobj["desc"]), {"image": list(img), "t": m.get("q_t"), "cs": m.get("q_cs")})
